@@ -14,6 +14,7 @@ from torch.utils._pytree import tree_map, tree_flatten
 
 from . import sym as S
 from .sym import NotEncodable
+from . import gtab as GT
 from .engine import (Ctx, SymTensor, Storage, mkmeta, from_arr, from_real, to_real, is_concrete,
                      norm_scalar, SymScalar, _CONC)
 
@@ -52,9 +53,17 @@ def vec(f, *arrs, otypes=None):
 
 
 def A(x):
-    """SymTensor / scalar -> numpy object array (0-d for scalars)"""
+    """SymTensor / scalar -> numpy object array (0-d for scalars); finite tables become case lists here,
+    because this accessor is only used on the scalar (non-table) execution path"""
     if isinstance(x, SymTensor):
-        return x.arr()
+        a = x.arr()
+        if x.storage_.sym and any(type(v) is GT.G for v in a.reshape(-1)):
+            b = np.empty(a.shape, dtype=object)
+            fb, fa = b.reshape(-1), a.reshape(-1)
+            for i in range(fa.shape[0]):
+                fb[i] = fa[i].cases() if type(fa[i]) is GT.G else fa[i]
+            return b
+        return a
     x = _sc(x)
     a = np.empty((), dtype=object)
     a[()] = x
@@ -620,6 +629,30 @@ def dispatch(func, name, args, kwargs):
         mout = run_meta(func, args, kwargs)
         base = args[0]
         return tree_map(lambda m: SymTensor(base.storage_, m) if isinstance(m, torch.Tensor) else m, mout)
+    if not sch.is_mutable and not has_symscalar and name not in STRUCTURAL:
+        if GT.has_g(args, kwargs, SymTensor):
+            if name in GT.POINTWISE:
+                r = GT.gmode_pointwise(func, args, kwargs, SymTensor, from_arr, to_real_concrete, run_meta(func, args, kwargs))
+                if r is not None:
+                    return r
+            if name in GT.REDUCE_DIM:
+                r = GT.gmode_reduce(func, args, kwargs, SymTensor, from_arr, to_real_concrete)
+                if r is not None:
+                    return r
+            r = GT.gmode(func, args, kwargs, SymTensor, from_arr, to_real_concrete)
+            if r is not None:
+                return r
+        elif name not in SCALAR_DOMAIN_OPS:
+            # non-linear op on values that depend on a few input bits only: switch to the finite-table domain
+            r = None
+            if name in GT.POINTWISE:
+                r = GT.gmode_pointwise(func, args, kwargs, SymTensor, from_arr, to_real_concrete, run_meta(func, args, kwargs))
+            if r is None and name in GT.REDUCE_DIM:
+                r = GT.gmode_reduce(func, args, kwargs, SymTensor, from_arr, to_real_concrete)
+            if r is None:
+                r = GT.gmode(func, args, kwargs, SymTensor, from_arr, to_real_concrete, limit=AUTO_TABLE_VARS)
+            if r is not None:
+                return r
     if h is not None:
         return h(func, args, kwargs)
     if name in UNARY:
@@ -670,6 +703,26 @@ def _write(dst, src_arr):
 
 
 NO_FAST = set()
+# ops that only move elements around: handled structurally so that table supports stay small
+STRUCTURAL = {"aten.clone.default", "aten.cat.default", "aten.stack.default", "aten.flip.default", "aten.roll.default", "aten.repeat.default",
+              "aten.constant_pad_nd.default", "aten.zeros_like.default", "aten.ones_like.default", "aten.empty_like.default", "aten.full_like.default",
+              "aten.new_zeros.default", "aten.new_ones.default", "aten.new_empty.default", "aten.contiguous.default", "aten.resolve_conj.default"}
+
+
+AUTO_TABLE_VARS = 12
+# ops that keep GF(2)-affine / integer-linear normal forms: stay in the scalar domain
+SCALAR_DOMAIN_OPS = {"aten.add.Tensor", "aten.add.Scalar", "aten.sub.Tensor", "aten.sub.Scalar", "aten.rsub.Scalar", "aten.rsub.Tensor",
+                     "aten.mul.Tensor", "aten.mul.Scalar", "aten.neg.default", "aten.mm.default", "aten.bmm.default", "aten.mv.default", "aten.dot.default",
+                     "aten.remainder.Scalar", "aten.bitwise_xor.Tensor", "aten.bitwise_xor.Scalar", "aten.sum.default", "aten.sum.dim_IntList",
+                     "aten._to_copy.default", "aten.eq.Scalar", "aten.ne.Scalar", "aten.eq.Tensor", "aten.ne.Tensor", "aten.copy_.default",
+                     "aten.logical_not.default", "aten.bitwise_not.default", "aten.div.Tensor", "aten.div.Scalar", "aten.mean.default", "aten.mean.dim",
+                     "aten.__lshift__.Scalar", "aten.bitwise_or.Tensor", "aten.lt.Scalar", "aten.gt.Scalar", "aten.le.Scalar", "aten.ge.Scalar",
+                     "aten.index.Tensor", "aten.index_put_.default", "aten.index_put.default", "aten._local_scalar_dense.default", "aten.equal.default",
+                     "aten.nonzero.default", "aten.masked_select.default"}
+
+
+def to_real_concrete(t):
+    return to_real(t)
 HANDLERS = {}
 
 
@@ -1219,7 +1272,17 @@ def h_index(func, args, kwargs):
         key = tuple(slice(None) if i is None else i for i in inds)
         res = a[key]
         return from_arr(np.asarray(res, dtype=object), base.dtype, res.shape)
-    # symbolic integer indices: all advanced indices must sit at the front
+    # table[idx] with one table-valued index tensor and a concrete table: per-element lookup on the leaves
+    if len(inds) == 1 and isinstance(inds[0], SymTensor) and is_concrete(base):
+        r = _index_table_lookup(base, inds[0])
+        if r is not None:
+            return r
+    # symbolic integer indices: finite-table mode first (exact leaves), else case lists
+    if all(i is None or isinstance(i, (np.ndarray, SymTensor)) for i in inds):
+        ind_args = [None if i is None else (from_arr(i, torch.int64) if isinstance(i, np.ndarray) else i) for i in inds]
+        r = GT.gmode(torch.ops.aten.index.Tensor, (base, ind_args), {}, SymTensor, from_arr, to_real_concrete)
+        if r is not None:
+            return r
     k = len(inds)
     if any(i is None for i in inds):
         raise NotEncodable("symbolic index combined with a slice")
@@ -1252,6 +1315,42 @@ def h_index(func, args, kwargs):
     return from_arr(out, base.dtype)
 
 
+def _index_table_lookup(base, ind):
+    ia = ind.arr()
+    flat = ia.reshape(-1)
+    supports = []
+    for v in flat:
+        vs = GT.vars_of(v)
+        if vs is None or len(vs) > GT.MAX_SEL:
+            return None
+        supports.append(tuple(sorted(vs, key=GT._varkey)))
+    with _disable_current_modes():
+        breal = to_real(base)
+        tail = tuple(breal.shape[1:])
+        tnum = int(np.prod(tail)) if tail else 1
+        b2 = breal.reshape(breal.shape[0], tnum)
+    out = np.empty((flat.shape[0], tnum), dtype=object)
+    for j, v in enumerate(flat):
+        sel = supports[j]
+        pos = {x: k for k, x in enumerate(sel)}
+        with _disable_current_modes():
+            idx = GT.table_of(v, sel, pos, torch.int64)
+            if bool((idx < -b2.shape[0]).any()) or bool((idx >= b2.shape[0]).any()):
+                raise IndexError("symbolic index can leave the table")
+            rows = b2[idx]          # (2^s, tnum)
+        for t in range(tnum):
+            with _disable_current_modes():
+                col = rows[:, t].clone()
+            s2, l2 = GT.reduce_support(sel, col)
+            if not s2:
+                with _disable_current_modes():
+                    out[j, t] = l2.reshape(-1)[0].item()
+            else:
+                out[j, t] = GT.G(s2, l2)
+    shape = tuple(ia.shape) + tail
+    return from_arr(out.reshape(shape) if shape else out.reshape(()), base.dtype, shape)
+
+
 def _collapse_lookup(cs):
     vals = [v for _, v in cs]
     if all(type(v) in _CONC for v in vals) and all(v == vals[0] for v in vals):
@@ -1271,7 +1370,19 @@ def h_index_put(func, args, kwargs):
     inplace = "index_put_" in str(func)
     if not inplace:
         base = h_copy(torch.ops.aten.clone.default, (base,), {})
-    inds = _prep_indices(base, args[1])
+    raw = args[1]
+    if (len(raw) == 1 and raw[0] is not None and raw[0].dtype == torch.bool and not is_concrete(raw[0]) and not accumulate
+            and (not isinstance(values, SymTensor) or values.numel() == 1) and tuple(raw[0].shape) == tuple(base.shape[:raw[0].dim()])):
+        # x[mask] = scalar with a symbolic mask: an elementwise select instead of a fork per element
+        mask = raw[0]
+        m = mask.reshape(tuple(mask.shape) + (1,) * (base.dim() - mask.dim()))
+        v = values if isinstance(values, SymTensor) else from_arr([_sc(values)], base.dtype, ())
+        if v.dtype != base.dtype:
+            v = h_copy(torch.ops.aten._to_copy.default, (v,), {"dtype": base.dtype})
+        res = dispatch(torch.ops.aten.where.self, "aten.where.self", (m, v.reshape(()), base), {})
+        _write(base, res.arr())
+        return base
+    inds = _prep_indices(base, raw)
     if not all(i is None or isinstance(i, np.ndarray) for i in inds):
         raise NotEncodable("index_put with a symbolic integer index")
     key = tuple(slice(None) if i is None else i for i in inds)
